@@ -117,3 +117,57 @@ def columns_scale_median_margin(self, c):
 def self_check() -> Tuple[int, int]:
     t = ast.parse(CONTROL)
     return len(scan_function(t.body[0], "f", True)) + len(scan_function(t.body[0], "f", False)), len(scan_function(t.body[1], "columns_scale_median_margin", True))
+
+
+# --------------------------------------------------------------------------- sets turned into sequences (hash-seed dependence)
+_SET_METHODS = ("intersection", "union", "difference", "symmetric_difference")
+
+
+def _is_set_valued(e: ast.AST, set_members) -> bool:
+    if isinstance(e, ast.Call):
+        f = u(e.func)
+        if f in ("set", "frozenset"):
+            return True
+        if isinstance(e.func, ast.Attribute) and e.func.attr in _SET_METHODS:
+            return True
+    if isinstance(e, (ast.Set, ast.SetComp)):
+        return True
+    if isinstance(e, ast.Attribute) and isinstance(e.value, ast.Name) and e.value.id in ("self", "cls") and e.attr in set_members:
+        return True
+    if isinstance(e, ast.BinOp) and isinstance(e.op, (ast.BitAnd, ast.BitOr, ast.Sub)) and (_is_set_valued(e.left, set_members) or _is_set_valued(e.right, set_members)):
+        return True
+    return False
+
+
+def set_order_uses(fn: ast.AST, set_members=frozenset()) -> List[Tuple[int, str]]:
+    """A set (frozenset) has no reproducible order: strings and enum members hash differently in every interpreter process
+    (PYTHONHASHSEED).  Turning one into a tuple / list, joining it, indexing the result or iterating it to BUILD a sequence
+    makes the outcome depend on the process.  sorted(..) and membership / truth / len uses are fine."""
+    out = []
+    for n in ast.walk(fn):
+        if isinstance(n, ast.Call):
+            f = u(n.func)
+            if f in ("tuple", "list", "np.array", "np.fromiter", "next", "iter", "enumerate") and n.args and _is_set_valued(n.args[0], set_members):
+                out.append((n.lineno, u(n)[:90]))
+            if isinstance(n.func, ast.Attribute) and n.func.attr == "join" and n.args and _is_set_valued(n.args[0], set_members):
+                out.append((n.lineno, u(n)[:90]))
+        if isinstance(n, (ast.ListComp, ast.GeneratorExp)) and _is_set_valued(n.generators[0].iter, set_members):
+            # a generator consumed by any()/all()/sum()/set()/frozenset()/sorted()/min()/max() does not expose the order
+            out.append((n.lineno, "comprehension over " + u(n.generators[0].iter)[:70]))
+    return out
+
+
+SET_ORDER_CONTROL = '''
+def _available_numeric_measures(self):
+    return tuple(self.available_measures.intersection(CUBE_MEASURE.NUMERIC_CUBE_MEASURES()))
+
+def ok(self):
+    if self.available_measures.intersection(NUMERIC):
+        return tuple(sorted(self.available_measures.intersection(NUMERIC)))
+    return tuple(m for m in CUBE_MEASURE if m in self.available_measures)
+'''
+
+
+def set_order_self_check() -> Tuple[int, int]:
+    t = ast.parse(SET_ORDER_CONTROL)
+    return len(set_order_uses(t.body[0])), len(set_order_uses(t.body[1]))
